@@ -415,7 +415,7 @@ class NumpyConverter(object):
             self.xlines = np.arange(data_array.shape[1]) if xlines is None else xlines
 
         self.samples = 4*np.arange(data_array.shape[2]) if samples is None else samples   # Default 4ms sampling
-        self.trace_headers = collections.OrderedDict(sorted(trace_headers.items()))
+        self.trace_headers = dict(trace_headers)
 
         shape = (len(self.ilines), len(self.xlines))
         tf_il = segyio.tracefield.TraceField.INLINE_3D
@@ -426,6 +426,10 @@ class NumpyConverter(object):
 
         if tf_xl not in self.trace_headers:
             self.trace_headers[tf_xl] = np.broadcast_to(self.xlines, shape)
+
+        # Footer arrays must be written in ascending header-word order, which is the order readers
+        # derive from the header-word table - including the default inline/crossline arrays added above
+        self.trace_headers = collections.OrderedDict(sorted(self.trace_headers.items()))
 
         # Do some sanity checks
         assert data_array.dtype == np.float32
